@@ -31,11 +31,32 @@
 (* from every initial state (nothing installed / version "a" installed,    *)
 (* backup of a version "b" present / absent, package = another version "p" *)
 (* or byte-identical to the installed one).                                *)
+(*                                                                         *)
+(* Environment dimension SameFs: is the tool's folder (and so its Backup)  *)
+(* on the file system of the system locations?  TRUE on a VM with one root *)
+(* file system (/var/lib/waagent/..., or the deb/rpm layout                *)
+(* /usr/lib/azure-proxy-agent/package): link(2) and rename(2) between the  *)
+(* two succeed; FALSE: they fail with EXDEV.  The design copies bytes      *)
+(* (fs::copy) everywhere, so no file name ever shares an inode with another*)
+(* (BackupIsSeparate) and the expected contents after every command        *)
+(* sequence are the same for both values -- which is exactly what the      *)
+(* replay checks on the real binary in both layouts.  lnk[l] records that  *)
+(* the backup of l and the system location l are two names of ONE inode;   *)
+(* all writes to system locations are IN PLACE (fs::copy opens the         *)
+(* existing file with O_TRUNC), so they show through every name.  The      *)
+(* design variant LinkBackup ("backup by hard link, copy on EXDEV"; only   *)
+(* mc/Setup_linkbackup*.cfg set it) must be rejected by TLC when SameFs.   *)
 (***************************************************************************)
 EXTENDS Naturals, Sequences, TLC
 
+CONSTANTS SameFs,      \* environment: link(2) from the system locations into the tool's Backup folder succeeds
+          LinkBackup   \* design variant: backup_files hard-links the three packaged files, copies when link fails
+ASSUME SameFs \in BOOLEAN /\ LinkBackup \in BOOLEAN
+
 Locs == {"exe", "cfg", "ebpf", "unit"}
 A    == "absent"
+Z    == "zero"       \* an empty file: what copying a file onto itself leaves (truncated before it is read)
+LinkLocs == {"cfg", "ebpf", "exe"}     \* the files of Backup/Package (linux::backup_files); the unit file is always copied
 All(v)  == [l \in Locs |-> v]
 Full(f) == \A l \in Locs : f[l] # A
 None(f) == \A l \in Locs : f[l] = A
@@ -44,6 +65,7 @@ Cmds     == {"backup", "install", "restoreT", "restoreF", "uninstallS", "uninsta
 Restores == {"restoreT", "restoreF"}
 
 VARIABLES sys, pkg, bak, bdir, rest, svc, calls,
+          lnk,   \* lnk[l]: Backup's file for l and the system location l are one inode (never, in the design)
           wrote, \* a system location has been written / removed by the current (last) command, whatever the bytes
           cmd,   \* the command in progress (pc > 0) or the last one completed (pc = 0); "none" initially
           pc,    \* index of the next step of Prog(cmd); 0 = between commands
@@ -51,7 +73,7 @@ VARIABLES sys, pkg, bak, bdir, rest, svc, calls,
           pre,   \* ghost: the state when the current/last command began
           s0, rt, chk   \* ghosts for RoundTrip, see NextRt
 
-vars == <<sys, pkg, bak, bdir, rest, svc, calls, wrote, cmd, pc, res, pre, s0, rt, chk>>
+vars == <<sys, pkg, bak, bdir, rest, svc, calls, lnk, wrote, cmd, pc, res, pre, s0, rt, chk>>
 
 -----------------------------------------------------------------------------
 \* The commands as programs (order of main.rs / linux.rs).
@@ -101,7 +123,7 @@ Init ==
   \E i \in {A, "a"}, b \in {A, "b"}, p \in {"p", "a"} :
     /\ p = "a" => i = "a"          \* "package byte-identical to the installed version" needs an installed version
     /\ sys = All(i) /\ bak = All(b) /\ bdir = (b # A) /\ pkg = All(p)
-    /\ rest = "r0"
+    /\ rest = "r0" /\ lnk = All(FALSE)
     /\ svc = IF i = A THEN "stopped" ELSE "running"
     /\ calls = << >> /\ wrote = FALSE /\ cmd = "none" /\ pc = 0 /\ res = "none"
     /\ pre = [sys |-> All(i), bak |-> All(b), bdir |-> (b # A), svc |-> IF i = A THEN "stopped" ELSE "running",
@@ -114,7 +136,7 @@ Begin(c) ==
   /\ pre' = Snapshot
   /\ chk' = FALSE
   /\ s0' = IF rt = 0 THEN All(A) ELSE s0
-  /\ UNCHANGED <<sys, pkg, bak, bdir, rest, svc, rt>>
+  /\ UNCHANGED <<sys, pkg, bak, bdir, rest, svc, rt, lnk>>
 
 Finish(r) ==
   /\ pc' = 0 /\ res' = r
@@ -125,52 +147,68 @@ Adv     == Goto(pc + 1)
 
 Src(a) == IF a \in {"pkg", "cpP", "unitP"} THEN pkg ELSE bak
 
+\* fs::copy(src, <system location l>): the destination is opened O_WRONLY|O_CREAT|O_TRUNC and written, i.e. an existing
+\* inode is overwritten in place and every other name of it (lnk) shows the new bytes; when the source is that very
+\* inode (restore from a backup that is a link of the live file) it is truncated before it is read: empty
+WriteSys(l, v, fromBak) ==
+  LET w == IF fromBak /\ lnk[l] THEN Z ELSE v IN
+    /\ sys' = [sys EXCEPT ![l] = w]
+    /\ bak' = IF lnk[l] THEN [bak EXCEPT ![l] = w] ELSE bak
+
 \* one systemctl invocation (linux_service.rs); the stand-in records what the system locations hold right now
 DoCall ==
   /\ pc > 0 /\ St.k = "call"
   /\ calls' = Append(calls, [v |-> St.a, s |-> sys, w |-> wrote])
   /\ svc' = CASE St.a = "stop" -> "stopped" [] St.a = "start" -> "running" [] OTHER -> svc
   /\ Adv
-  /\ UNCHANGED <<sys, pkg, bak, bdir, rest, wrote, cmd, pre>>
+  /\ UNCHANGED <<sys, pkg, bak, bdir, rest, wrote, cmd, pre, lnk>>
 
 \* main.rs check_backup_exists: the backed-up executable decides
 DoCheckBackup ==
   /\ pc > 0 /\ St.k = "chk"
   /\ IF bak["exe"] = A THEN Finish("skip") ELSE Adv
-  /\ UNCHANGED <<sys, pkg, bak, bdir, rest, svc, calls, wrote, cmd, pre>>
+  /\ UNCHANGED <<sys, pkg, bak, bdir, rest, svc, calls, wrote, cmd, pre, lnk>>
 
 \* running::proxy_agent_version_target_folder runs `<exe> --version` on the packaged / backed-up executable
 DoProbe ==
   /\ pc > 0 /\ St.k = "probe"
-  /\ IF Src(St.a)["exe"] = A THEN Finish("panic") ELSE Adv
-  /\ UNCHANGED <<sys, pkg, bak, bdir, rest, svc, calls, wrote, cmd, pre>>
+  /\ IF Src(St.a)["exe"] \in {A, Z} THEN Finish("panic") ELSE Adv      \* an empty file cannot be executed either
+  /\ UNCHANGED <<sys, pkg, bak, bdir, rest, svc, calls, wrote, cmd, pre, lnk>>
 
 \* linux::copy_files, one file: a missing source is logged and skipped
 DoCopyIn ==
   /\ pc > 0 /\ St.k \in {"cpP", "cpB"}
   /\ LET src == Src(St.k) IN
-       /\ sys' = IF src[St.a] # A THEN [sys EXCEPT ![St.a] = src[St.a]] ELSE sys
+       /\ IF src[St.a] # A THEN WriteSys(St.a, src[St.a], St.k = "cpB") ELSE UNCHANGED <<sys, bak>>
        /\ wrote' = (wrote \/ src[St.a] # A)
   /\ Adv
-  /\ UNCHANGED <<pkg, bak, bdir, rest, svc, calls, cmd, pre>>
+  /\ UNCHANGED <<pkg, bdir, rest, svc, calls, cmd, pre, lnk>>
 
 \* linux::setup_service -> copy_service_config_file: a missing source is fatal (exit 1, no start)
 DoCopyUnit ==
   /\ pc > 0 /\ St.k \in {"unitP", "unitB"}
   /\ LET src == Src(St.k) IN
        IF src["unit"] = A
-       THEN Finish("fail") /\ UNCHANGED <<sys, wrote>>
-       ELSE sys' = [sys EXCEPT !["unit"] = src["unit"]] /\ wrote' = TRUE /\ Adv
-  /\ UNCHANGED <<pkg, bak, bdir, rest, svc, calls, cmd, pre>>
+       THEN Finish("fail") /\ UNCHANGED <<sys, bak, wrote>>
+       ELSE WriteSys("unit", src["unit"], St.k = "unitB") /\ wrote' = TRUE /\ Adv
+  /\ UNCHANGED <<pkg, bdir, rest, svc, calls, cmd, pre, lnk>>
 
 \* linux::backup_files, one file (copy_file creates Backup/Package first; a missing source is logged and skipped,
-\* which leaves whatever an earlier backup put there)
+\* which leaves whatever an earlier backup put there).  The design copies the bytes into a file of its own.
+\* Variant LinkBackup: the old backup file is dropped and the system file hard-linked; where link(2) fails
+\* (not SameFs: EXDEV) the bytes are copied as before.
 DoBackupFile ==
   /\ pc > 0 /\ St.k = "bk"
-  /\ bak' = IF sys[St.a] # A THEN [bak EXCEPT ![St.a] = sys[St.a]] ELSE bak
+  /\ IF sys[St.a] = A
+     THEN UNCHANGED <<sys, bak, lnk>>
+     ELSE IF LinkBackup /\ SameFs /\ St.a \in LinkLocs
+     THEN bak' = [bak EXCEPT ![St.a] = sys[St.a]] /\ lnk' = [lnk EXCEPT ![St.a] = TRUE] /\ UNCHANGED sys
+     ELSE IF lnk[St.a]      \* fs::copy of a file onto another name of itself
+     THEN bak' = [bak EXCEPT ![St.a] = Z] /\ sys' = [sys EXCEPT ![St.a] = Z] /\ UNCHANGED lnk
+     ELSE bak' = [bak EXCEPT ![St.a] = sys[St.a]] /\ UNCHANGED <<sys, lnk>>
   /\ bdir' = TRUE
   /\ Adv
-  /\ UNCHANGED <<sys, pkg, rest, svc, calls, wrote, cmd, pre>>
+  /\ UNCHANGED <<pkg, rest, svc, calls, wrote, cmd, pre>>
 
 \* linux_service::delete_service_config_file: daemon-reload only if the unit file was there
 DoRemoveUnit ==
@@ -178,12 +216,14 @@ DoRemoveUnit ==
   /\ IF sys["unit"] # A
      THEN sys' = [sys EXCEPT !["unit"] = A] /\ wrote' = TRUE /\ Adv
      ELSE UNCHANGED <<sys, wrote>> /\ Goto(pc + 2)
+  /\ lnk' = [lnk EXCEPT !["unit"] = FALSE]       \* unlink removes one name; the other keeps the inode
   /\ UNCHANGED <<pkg, bak, bdir, rest, svc, calls, cmd, pre>>
 
 \* linux::delete_files, one file
 DoDeleteFile ==
   /\ pc > 0 /\ St.k = "rm"
   /\ sys' = [sys EXCEPT ![St.a] = A]
+  /\ lnk' = [lnk EXCEPT ![St.a] = FALSE]
   /\ wrote' = (wrote \/ sys[St.a] # A)
   /\ Adv
   /\ UNCHANGED <<pkg, bak, bdir, rest, svc, calls, cmd, pre>>
@@ -191,7 +231,7 @@ DoDeleteFile ==
 \* main.rs delete_backup_folder: remove_dir_all(<dir>/ProxyAgent/Backup)
 DoDeleteBackup ==
   /\ pc > 0 /\ St.k = "rmbak"
-  /\ bak' = All(A) /\ bdir' = FALSE
+  /\ bak' = All(A) /\ bdir' = FALSE /\ lnk' = All(FALSE)
   /\ Adv
   /\ UNCHANGED <<sys, pkg, rest, svc, calls, wrote, cmd, pre>>
 
@@ -216,9 +256,10 @@ Spec == Init /\ [][Next]_vars
 \* observed behaviour of the real binary, so they mention only observables and the ghosts of NextRt.
 
 Done == pc = 0 /\ cmd # "none"
-Content == {A, "a", "b", "p"}
+Content == {A, "a", "b", "p"} \cup (IF LinkBackup THEN {Z} ELSE {})
 TypeOK ==
   /\ sys \in [Locs -> Content] /\ bak \in [Locs -> Content] /\ pkg \in [Locs -> Content]
+  /\ lnk \in [Locs -> BOOLEAN]
   /\ bdir \in BOOLEAN /\ svc \in {"running", "stopped"} /\ cmd \in Cmds \cup {"none"}
   /\ wrote \in BOOLEAN /\ pc \in 0..12 /\ res \in {"none", "run", "ok", "skip", "fail", "panic"} /\ rt \in 0..2 /\ chk \in BOOLEAN
 
@@ -265,6 +306,11 @@ FrameObs == Done => rest = pre.rest /\ pkg = pre.pkg
 Frame == [][rest' = rest /\ pkg' = pkg]_vars
 
 \* --- model-only (implementation shape; conformance, not the statement) ---
+\* lnk means what it says
+LnkSound == \A l \in Locs : lnk[l] => sys[l] # A /\ bak[l] = sys[l]
+\* the design keeps the backup in files of its own, whatever the file systems: this is what makes overwriting the
+\* system locations in place safe, and why SameFs does not change any expected content
+BackupIsSeparate == \A l \in Locs : ~lnk[l]
 RestoreExact == (Done /\ cmd \in Restores /\ Full(pre.bak)) => sys = pre.bak
 BackupExact  == (Done /\ cmd = "backup" /\ Full(pre.sys)) => bak = pre.sys /\ bdir /\ sys = pre.sys /\ calls = << >>
 BackupTouchedOnlyBy == [][bak' # bak => cmd \in {"backup", "restoreT", "purge"}]_vars
